@@ -1,6 +1,8 @@
 """C07 — @leftrec terminates and grows the longest left-nested match.
-proof (partial): Props/C07.v (the loop's defining equation; termination bound
-under the strict progress test; fuel monotonicity).  correspondence: trees,
+proof: Props/C07.v (termination for every grammar passing wf_check_lr; the loop's
+defining equation; for the usual shape the recursive reference resolved -
+C07_usual_body / _parse / _extension - provided nothing is skipped between the
+entry of the rule and its recursive field; refutation otherwise).  correspondence: trees,
 errors and the full trace (with the "Starting new left recursive loop" and
 "Cache hit (left recursive)" notes) equal the model's.  oracle: for the usual
 shapes  A = A op x | ... | b  an independent reference (match b, then greedily
@@ -13,14 +15,14 @@ from . import common
 FACTS = common.CODEGEN_FILES
 
 
-def ref_lr(inp, ops):
-    """reference for @no_skip-less LR = left:*LR op n:Num | n:Num (whitespace skipped before tokens):
-    returns (tree, end) or None"""
+def ref_lr(inp, ops, name="LR", skipws=True):
+    """independent reference for  NAME = left:*NAME op n:Num | ... | n:Num  (Num = ASCII digits; whitespace is
+    skipped before every token unless the rule is @no_skip_ws): match Num, then greedily  op Num ; the tree is
+    nested to the left.  Returns (tree, end) or None"""
     ws = " \t\n\x0c\r"
-    i = 0
 
     def skip(i):
-        while i < len(inp) and inp[i] in ws:
+        while skipws and i < len(inp) and inp[i] in ws:
             i += 1
         return i
 
@@ -33,7 +35,7 @@ def ref_lr(inp, ops):
     r = num(i)
     if not r:
         return None
-    tree = ("struct", "LR", [("left", ("none",)), ("n", ("str", r[0].encode()))])
+    tree = ("struct", name, [("left", ("none",)), ("n", ("str", r[0].encode()))])
     end = r[1]
     while True:
         j = skip(end)
@@ -42,11 +44,14 @@ def ref_lr(inp, ops):
             r = num(k)
             if not r:
                 break
-            tree = ("struct", "LR", [("left", ("some", tree)), ("n", ("str", r[0].encode()))])
+            tree = ("struct", name, [("left", ("some", tree)), ("n", ("str", r[0].encode()))])
             end = r[1]
         else:
             break
     return tree, end
+
+
+USUAL = {"LR": ("+", True), "LRS": ("+-", True), "LRN": ("+", False)}      # corpus/grammars/leftrec_usual_shape.ebnf
 
 
 def find_lr(tree):
@@ -141,10 +146,32 @@ def check(out, ctx):
             if n != want:
                 out.violation("c07ref:%s" % c.inp, "left-recursive rule grew %d levels on %r, the longest match has %d" % (n, c.inp, want),
                               common.case_payload(c, st))
+    # the closed form of the property text, independently of the model: corpus grammar leftrec_usual_shape has
+    # three exported rules of the shape  A = left:*A op n:Num | ... | n:Num ; the parser must accept exactly
+    # b x* (greedy) and nest to the left.  (Theorems C07_usual_body / C07_usual_parse: holds whenever nothing is
+    # skipped between the entry of the rule and its recursive field; known finding c07:entered-before-whitespace
+    # is the other case - a whitespace-skipping @leftrec rule entered where whitespace follows.)
+    closed = 0
+    closed_before_ws = 0
+    for c in st["cases"]:
+        if c.g.meta.get("corpus") != "leftrec_usual_shape" or c.rule not in USUAL or c.impl["k"] not in ("OK", "ERR"):
+            continue
+        ops, skipws = USUAL[c.rule]
+        want = ref_lr(c.inp, ops, c.rule, skipws)
+        closed += 1
+        got = strip_pos(c.impl["tree"]) if c.impl["k"] == "OK" else None
+        if (want is None) != (got is None) or (want is not None and got != want[0]):
+            before_ws = skipws and c.inp[:1] != "" and c.inp[0] in " \t\n\x0c\r"
+            closed_before_ws += before_ws
+            out.violation("c07:entered-before-whitespace" if before_ws else "c07closed:%s:%s" % (c.rule, c.inp.encode().hex()),
+                          "rule %s on %r: the result is not the greedy left-nested match  b x*  (%s)" % (
+                              c.rule, c.inp, "rule entered where whitespace follows" if before_ws else "nothing skipped at the entry"),
+                          common.case_payload(c, st, closed_form=repr(want)))
     common.stream_coverage(out, st, cases,
                            "cases of grammars with @leftrec rules (plain, two operators, base alternative first, indirect through a non-memoized rule, @position); non-trivial = the growth loop ran at least 3 turns; distinct by (grammar, rule, input)",
                            lambda c: c.impl.get("trace", "").count("I:2") >= 3,
-                           {"left_nesting_checked": ref_checked, "model_vs_implementation_disagreements": bad,
+                           {"left_nesting_checked": ref_checked, "closed_form_reference_compared": closed,
+                            "closed_form_differs_entered_before_whitespace": closed_before_ws, "model_vs_implementation_disagreements": bad,
                             "leftrec_grammars_certified_by_wf_check_lr": sum(1 for g in st["grammars"] if g.meta["leftrec"] and getattr(g, "wf_lr", None) is True),
                             "leftrec_grammars": sum(1 for g in st["grammars"] if g.meta["leftrec"]),
                             "hanging_cases_of_grammars_outside_the_quantifier": outside,
